@@ -904,7 +904,7 @@ func c56ViaModule(r *vkit.Run, env *modEnv, up *c56Upstream, c *c56Case) {
 }
 
 func c56(r *vkit.Run) {
-	r.SetRule("seeded DoH requests parsed by bfe_http.ReadRequest: GET (?dns=base64url) and POST (Content-Length or chunked) carrying miekg-packed queries (0-2 questions, optional answer/authority/additional RRs, compression on/off, with no OPT / OPT without ECS / OPT with one ECS), truncated and random wire, wrong methods, missing/duplicate/percent-encoded/std-alphabet/illegal/impossible-length dns parameter, POST bodies at limit-2..limit and over the 8192-byte limit (record boundary exactly at the limit, mid-record, valid message + trailing bytes); RemoteAddr/ClientAddr drawn from IPv4 (4- and 16-byte net.IP), v4-mapped and IPv6. Oracle: reject <=> reference says malformed/oversized; else packed output walked by an independent wire walker (one OPT, one ECS, family/prefix/address per RFC 7871) and other sections equal to the client's message (miekg as codec). A 1/20 subset also runs through mod_doh's handler with a capturing UDP upstream. Client-supplied ECS: EVERY client-subnet option of the forwarded message (at least one) must be the genuine one for the real client (family by To4, prefix <= 32/128, address = masked client address of ceil(prefix/8) bytes, scope 0); a non-genuine option byte-identical to one the client sent is reported as ecs:client-supplied-option-survives:<shape>; how bfe gets there (replace / strip+append) is not prescribed. CLIENT-OPT-SPACE family (c56opt.go, own generator stream, runs first; 840 x 2 quick / x 40 thorough cases): enumerated (arrangement x GET/POST x client kind), arrangement = no OPT RR, OPT without options, or every ordering of 0-3 client-subnet options among 0-3 other options (cookie 8/16-40 bytes, padding, NSID, DAU, unknown codes 4/13/17/26946/65001/65534/65535) = 70 arrangements; client kind = RemoteAddr IPv4 (16-byte), IPv4 (4-byte), IPv6, IPv6 + trusted ClientAddr IPv4, IPv4 + ClientAddr IPv6, IPv4 + ClientAddr IPv4; client-supplied subnet options written as raw bytes: IPv4 /24 /32 /0, IPv6 /56 /128 /0, family 0, equal to the genuine value, the real address with a shorter prefix, the genuine value with a non-zero scope, the other family, the untrusted TCP peer address, and (<= one per message) family 3 / shorter than 4 bytes / prefix > 32, for which the codec decides acceptance (rejected => bfe must reject); OPT RR alone / first / middle / last in the additional section, UDP size 0-65535, DO, version != 0, Z bits, extended rcode; every 12th case also through the module handler. A client message with two OPT RRs is not generated (RFC 6891 6.1.1: FORMERR; docs silent). Every arrangement, class, client kind, option kind, OPT position and header variant must occur, else inconclusive. Non-trivial = request reached RequestToDnsMsg; distinct = (method,target,body,addresses)")
+	r.SetRule("seeded DoH requests parsed by bfe_http.ReadRequest: GET (?dns=base64url) and POST (Content-Length or chunked) carrying miekg-packed queries (0-2 questions, optional answer/authority/additional RRs, compression on/off, with no OPT / OPT without ECS / OPT with one ECS), truncated and random wire, wrong methods, missing/duplicate/percent-encoded/std-alphabet/illegal/impossible-length dns parameter, POST bodies at limit-2..limit and over the 8192-byte limit (record boundary exactly at the limit, mid-record, valid message + trailing bytes); RemoteAddr/ClientAddr drawn from IPv4 (4- and 16-byte net.IP), v4-mapped and IPv6. Oracle: reject <=> reference says malformed/oversized; else packed output walked by an independent wire walker (one OPT, one ECS, family/prefix/address per RFC 7871) and other sections equal to the client's message (miekg as codec). A 1/20 subset also runs through mod_doh's handler with a capturing UDP upstream. Client-supplied ECS: EVERY client-subnet option of the forwarded message (at least one) must be the genuine one for the real client (family by To4, prefix <= 32/128, address = masked client address of ceil(prefix/8) bytes, scope 0); a non-genuine option byte-identical to one the client sent is reported as ecs:client-supplied-option-survives:<shape>; how bfe gets there (replace / strip+append) is not prescribed. CLIENT-OPT-SPACE family (c56opt.go, own generator stream, runs first; 840 x 2 quick / x 40 thorough cases): enumerated (arrangement x GET/POST x client kind), arrangement = no OPT RR, OPT without options, or every ordering of 0-3 client-subnet options among 0-3 other options (cookie 8/16-40 bytes, padding, NSID, DAU, unknown codes 4/13/17/26946/65001/65534/65535) = 70 arrangements; client kind = RemoteAddr IPv4 (16-byte), IPv4 (4-byte), IPv6, IPv6 + trusted ClientAddr IPv4, IPv4 + ClientAddr IPv6, IPv4 + ClientAddr IPv4; client-supplied subnet options written as raw bytes: IPv4 /24 /32 /0, IPv6 /56 /128 /0, family 0, equal to the genuine value, the real address with a shorter prefix, the genuine value with a non-zero scope, the other family, the untrusted TCP peer address, and (<= one per message) family 3 / shorter than 4 bytes / prefix > 32, for which the codec decides acceptance (rejected => bfe must reject); OPT RR alone / first / middle / last in the additional section, UDP size 0-65535, DO, version != 0, Z bits, extended rcode; every 12th case also through the module handler. One case in eight carries a second OPT RR (with or without a subnet option of its own, before or behind the first): RFC 6891 6.1.1 makes such a query a format error, so it must be rejected (accepted-invalid:client-opt-space:two-opt-rrs). Every arrangement, class, client kind, option kind, OPT position and header variant must occur, else inconclusive. Non-trivial = request reached RequestToDnsMsg; distinct = (method,target,body,addresses)")
 	r.Assume("miekg/dns v1.1.29 Unpack/Pack is a correct codec for the generated messages (it is also the library bfe uses; the ECS option is decoded independently)")
 	r.Assume("POST limit 8192 bytes (mod_doh maxPostMsgLength) is the module's definition of oversized; GET size is not limited by the docs and not judged")
 
